@@ -59,6 +59,8 @@ def opt_text(it, ctx):
         return {"word": "word", "true": "word = true", "false": "word = false"}[f], h
     if n == "rename_all":
         return 'rename_all = "camelCase"', h
+    if n == "bound":
+        return 'bound = "u8: Copy"', h
     if n == "allow_unknown_fields":
         return {"word": "allow_unknown_fields", "true": "allow_unknown_fields = true", "false": "allow_unknown_fields = false"}[f], h
     if n == "attributes":
